@@ -10,7 +10,11 @@ import pandas as pd
 from common import rq, unrq, enc_list, dec_list, close
 
 REQUIRED = ['lhm_linear', 'closed_form_root', 'root_solves', 'cramer_solves', 'closed_form_is_root',
-            'closed_form_none_iff', 'root_unique', 'root_unique_general', 'one_param_saturated']
+            'closed_form_none_iff', 'root_unique', 'root_unique_general', 'one_param_saturated',
+            # Props/C15_Gen.lean: the code regenerated from g_estimation.py is the model, and the property for it
+            'snm_closed_lhm_generated', 'snm_closed_rha_generated', 'snm_fit_weight_col_generated',
+            'snm_fit_closed_generated', 'snm_fit_closed_cramer', 'snm_fit_closed_root', 'snm_fit_closed_unique',
+            'snm_search_hpsi_generated', 'snm_search_objective_zero_iff', 'snm_search_zero_is_closed_form']
 RULE = ('every cell of outcome type {continuous, binary} x SNM {A, A + A:V, A + A:V + A:W} x weights {none, column} x '
         'missing outcome {none, dropped (no model), missing_model stabilized, missing_model unstabilized} gets fresh '
         'random data sets (n 80-260, binary/3-level/continuous covariates, random exposure model, shuffled or '
@@ -184,7 +188,11 @@ def reference(chk, df, expo, weights, missing, miss_den, ipmw_in_use=None):
     h_ok = bool(fm.converged) and float(np.max(np.abs(score))) <= 1e-7 * float(np.sum(ww))
     chk.h_checked += 1
     return {'cc': cc, 'w': np.ones(len(cc)) if w is None else np.asarray(w, dtype=float), 'pi': pi,
-            'ipmw': ipmw_ref, 'h_ok': h_ok, 'weighted': w is not None}
+            'ipmw': ipmw_ref, 'h_ok': h_ok, 'weighted': w is not None,
+            # the two factors of `w` as GEstimationSNM.fit sees them (the generated fit chooses / multiplies them itself)
+            'uw': cc['wt'].values.astype(float) if weights else np.ones(len(cc)),
+            'im': np.asarray(ipmw[M.values == 1], dtype=float) if ipmw is not None else np.ones(len(cc)),
+            'hasw': bool(weights), 'hasim': ipmw is not None}
 
 
 def run_impl(df, expo, p, weights, missing, miss_den, solver='closed', snm=None, history='auto', **kw):
@@ -240,15 +248,16 @@ def design(cc, labels):
     return np.column_stack([label_column(cc, lab) for lab in labels])
 
 
-def exact_esteq(a, y, pi, w, Vm, psi):
-    """exact E_j(psi) and the scale  sum_i |d_i v_ij| (|y_i| + sum_k |psi_k a_i v_ik|)  (Fractions)"""
+def exact_esteq(a, y, pi, w, Vm, psi, w2=None):
+    """exact E_j(psi) and the scale  sum_i |d_i v_ij| (|y_i| + sum_k |psi_k a_i v_ik|)  (Fractions); the weight of
+    row i is w[i] (* w2[i], multiplied exactly, when the weight is given as its two factors)"""
     n, p = Vm.shape
     F = Fraction
     psi = [F(float(x)) for x in psi]
     E = [F(0)] * p
     S = [F(0)] * p
     for i in range(n):
-        d = (F(float(a[i])) - F(float(pi[i]))) * F(float(w[i]))
+        d = (F(float(a[i])) - F(float(pi[i]))) * F(float(w[i])) * (F(1) if w2 is None else F(float(w2[i])))
         v = [F(float(x)) for x in Vm[i]]
         ai = F(float(a[i]))
         lin = sum(ps * ai * vk for ps, vk in zip(psi, v))
@@ -260,8 +269,13 @@ def exact_esteq(a, y, pi, w, Vm, psi):
     return E, S
 
 
-def driver_args(a, y, pi, w, Vm):
-    return dict(p=Vm.shape[1], a=enc_list(a, rq), y=enc_list(y, rq), pi=enc_list(pi, rq), w=enc_list(w, rq),
+def driver_args(a, y, pi, ref, Vm, sel=None):
+    """the inputs of `GEstimationSNM.fit` as the regenerated code takes them: exposure, outcome, reference fitted
+    values, the user's weight column and the missing-outcome weights *separately* with the two flags (which of them
+    exist) -- the generated weight-column lines choose and multiply them"""
+    uw, im = (ref['uw'], ref['im']) if sel is None else (ref['uw'][sel], ref['im'][sel])
+    return dict(p=Vm.shape[1], a=enc_list(a, rq), y=enc_list(y, rq), pi=enc_list(pi, rq), uw=enc_list(uw, rq),
+                ipmw=enc_list(im, rq), hasw=int(ref['hasw']), hasipmw=int(ref['hasim']),
                 v=enc_list(Vm.reshape(-1), rq))
 
 
@@ -360,7 +374,9 @@ def check_closed(chk, drv, df, ytype, p, weights, missing, expo, miss_den, seedi
           case)
     # ---- K: exact model (Rat) fed the reference fitted values vs reported psi; estimating function values
     if drv is not None:
-        kw = driver_args(a, y, pi, w, Vm)
+        # the code regenerated from GEstimationSNM.fit / _closed_form_solver_ (Gen/Snm.lean) run on the same inputs:
+        # exposure, outcome, reference fitted values, the two weight factors and which of them exist
+        kw = driver_args(a, y, pi, ref, Vm)
         rep, _ = drv.ask('snm_closed', **kw)
         ok = rep['status'] == 'ok'
         if ok:
@@ -369,15 +385,24 @@ def check_closed(chk, drv, df, ytype, p, weights, missing, expo, miss_den, seedi
             # forward error of the float solve <= ~cond * 1e-15 * max|psi| (normwise)
             ftol = max(1e-8, 1e-13 * cond) * max(1.0, float(np.max(np.abs(psi))))
             ok = len(mpsi) == p and all(abs(m - q) <= ftol + 1e-9 for m, q in zip(mpsi, psi))
-        chk.k(ok, 'closed-form psi: model (Cramer, exact) vs implementation', {'case': case, 'model': rep})
+        chk.k(ok, 'closed-form psi: generated fit (Cramer for np.linalg.solve, exact) vs implementation',
+              {'case': case, 'model': rep})
+        chk.k(rep.get('hand') == rep.get('psi', 'singular'),
+              'closed-form psi: generated fit = hand-written model closedForm (exact)', {'case': case, 'model': rep})
         rep2, _ = drv.ask('snm_esteq', psi=enc_list(psi, rq), **kw)
         ok2 = rep2['status'] == 'ok'
         if ok2:
+            # the weight of a row is the exact product of its two factors in the model; the predicate agrees exactly
+            # when evaluated with the same exact product (the implementation rounds the product: <= 1 ulp, far inside
+            # the 1e-8 of the predicate above)
+            Ex, _ = exact_esteq(a, y, pi, ref['uw'] if ref['hasw'] else np.ones(len(a)), Vm, psi,
+                                w2=ref['im'] if ref['hasim'] else None)
             me = [unrq(t) for t in dec_list(rep2['e'], str)]
             ml = [unrq(t) for t in dec_list(rep2['lin'], str)]
-            ok2 = me == E and ml == E       # exact: both sides are exact rational evaluations
-        chk.k(ok2, 'estimating function: model estEq = harness predicate = rha - lhm psi (exact)',
-              {'case': case, 'model': {k: str(v)[:200] for k, v in rep2.items()}})
+            mg = [unrq(t) for t in dec_list(rep2['eg'], str)]
+            ok2 = me == Ex and ml == Ex and mg == Ex      # exact: all sides are exact rational evaluations
+        chk.k(ok2, 'estimating function: model estEq = harness predicate = generated rha - lhm psi = sum d v_j '
+              '(generated H(psi)) (exact)', {'case': case, 'model': {k: str(v)[:200] for k, v in rep2.items()}})
     return {'g': g, 'psi': psi, 'labels': labels, 'snm': snm, 'ref': ref, 'Vm': Vm, 'case': case}
 
 
@@ -431,6 +456,48 @@ def check_search(chk, df, ytype, p, weights, missing, expo, miss_den, closed, st
     # is O(0.1-1); measured agreement on the clean tree is 1e-7
     chk.d(agree, 'search solver agrees with the closed form (<= 1e-4, numerical)', case,
           signature={'solver': 'search', 'symptom': case['symptom']})
+
+
+def check_objective(chk, drv, df, ytype, p, weights, missing, expo, miss_den, closed):
+    """K for the search solver's objective (regenerated from `_grid_search_`): a search truncated after one iteration
+    reports a point `x` away from the root and the objective there (`res.fun`); the harness refits the exposure model
+    with the H(x) terms itself (reference invocation) and the generated `sum |alpha - shift|` is evaluated on those
+    coefficients."""
+    if drv is None:
+        return
+    case = dict(closed['case'])
+    case['kind'] = 'objective'
+    try:
+        g = run_impl(df, expo, p, weights, missing, miss_den, solver='search', snm=closed['snm'], history=None,
+                     maxiter=1)
+        res = g._scipy_solver_obj
+        x = dict(zip([str(t) for t in g.psi_labels], np.asarray(res.x, dtype=float)))
+        x = np.array([x[l] for l in closed['labels']], dtype=float)
+    except Exception as e:       # noqa: BLE001
+        chk.k(False, 'search objective: truncated search runs', dict(case, impl_error=repr(e)))
+        return
+    ref, Vm = closed['ref'], closed['Vm']
+    cc = ref['cc'].copy()
+    a, y = cc['A'].values.astype(float), cc['Y'].values.astype(float)
+    H = y - (Vm * a[:, None]) @ x
+    hcols = []
+    for j in range(Vm.shape[1]):
+        cc['H_%d' % j] = H * Vm[:, j]
+        hcols.append('H_%d' % j)
+    fm = glm_fit('A ~ ' + expo + ' + ' + ' + '.join(hcols), cc, w=ref['w'] if ref['weighted'] else None)
+    chk.h_checked += 1
+    if not fm.converged:
+        chk.discard('reference refit with the H(psi) terms did not converge')
+        return
+    alpha = [float(fm.params[h]) for h in hcols]
+    rep, _ = drv.ask('snm_objective', alpha=enc_list(alpha, rq), shift=enc_list([0.0] * len(alpha), rq))
+    case.update({'objective_point': [float(t) for t in x], 'impl_objective': float(res.fun), 'ref_alpha': alpha})
+    # 1e-6 relative: two IRLS fits of the same model on differently ordered / named columns agree to ~1e-9; a changed
+    # objective (no absolute value, squares, a dropped term) differs at O(1) relative away from the root
+    ok = rep['status'] == 'ok' and close(float(unrq(rep['obj'])), float(res.fun), rtol=1e-6, atol=1e-9)
+    chk.count('objective:p%d/%s/%s' % (p, 'w' if weights else 'nw', missing))
+    chk.k(ok, 'search objective: generated sum|alpha - shift| on the reference refit vs the value the optimiser saw',
+          {'case': case, 'model': rep})
 
 
 def check_saturated(chk, drv, rng, ytype, weights, missing, seedinfo):
@@ -492,7 +559,7 @@ def eval_saturated(chk, drv, df, ytype, weights, missing, expo, strata_cols, deg
           'one-parameter SNM, saturated exposure model: psi = sum n p(1-p)(ybar1-ybar0) / sum n p(1-p)', case)
     if drv is not None:
         # the model's theorem needs both arms in every stratum: it is fed the strata that carry weight
-        kw = driver_args(a[live], y[live], res['ref']['pi'][live], w[live], res['Vm'][live])
+        kw = driver_args(a[live], y[live], res['ref']['pi'][live], res['ref'], res['Vm'][live], sel=live)
         rep, _ = drv.ask('snm_strat', s=enc_list(sid[live].tolist(), str), **kw)
         ok = rep['status'] == 'ok' and close(float(unrq(rep['psi'])), psi[0], rtol=1e-7, atol=1e-9)
         if ok:
@@ -524,7 +591,7 @@ def eval_singular(chk, drv, df):
     if drv is not None:
         ref = reference(chk, df, 'W + L', False, 'none', None)
         cc = ref['cc']
-        rep, _ = drv.ask('snm_closed', **driver_args(cc['A'].values, cc['Y'].values, ref['pi'], ref['w'], design(cc, 2)))
+        rep, _ = drv.ask('snm_closed', **driver_args(cc['A'].values, cc['Y'].values, ref['pi'], ref, design(cc, 2)))
         chk.k((rep['status'] == 'err') == (impl == 'singular'), 'singular lhm: model and implementation both reject',
               {'case': case, 'model': rep})
 
@@ -601,6 +668,7 @@ def run(chk, drv, rng, tier):
             continue
         df, expo, miss_den, res = keep[(ytype, p, weights, missing)]
         check_search(chk, df, ytype, p, weights, missing, expo, miss_den, res, start_mode)
+        check_objective(chk, drv, df, ytype, p, weights, missing, expo, miss_den, res)
     for _ in range(2 if tier == 'quick' else 6):
         check_singular(chk, drv, rng)
     check_unspecified(chk, rng)
